@@ -378,6 +378,17 @@ def run(chk):
     # ---------- 0. corpus ----------
     R.both(CORPUS_DEC)
 
+    # ---------- 0b. RangeList::new against the index-by-index model of its loop (compact_idx) ----------
+    M = U64
+    rln = [[], [(5, 3)], [(0, M)], [(0, M), (5, 6)], [(5, 6), (0, M)], [(5, M), (5, 7)], [(5, 7), (5, M)], [(M, M), (M, M)], [(M, 0), (1, 2)],
+           [(0, 1), (2, 3), (4, 5)], [(0, 1), (3, 4), (6, 7)], [(10, 20), (0, 30), (5, 6)], [(M - 1, M - 1), (M, M)], [(M - 2, M - 1), (M, M)]]
+    for _ in range(100 if quick else 5000):
+        rln.append([(g.r.choice([0, 1, 2, 3, 5, 8, 13, M - 1, M]) if g.r.random() < 0.3 else g.r.randint(0, 30),
+                     g.r.choice([0, 1, 2, 3, 5, 8, 13, M - 1, M]) if g.r.random() < 0.3 else g.r.randint(0, 30)) for _ in range(g.r.randint(0, 6))])
+    rc_ = ['rl_new ' + f_rl(x) for x in rln]
+    R.both(rc_)
+    for c in rc_: chk.count(c, True)
+
     # ---------- 1. leaf records: encoders, decoders, round trip, every strict prefix rejected ----------
     n_leaf = 60 if quick else 1500
     leaf = []
@@ -386,6 +397,8 @@ def run(chk):
         leaf.append(('sr', g.sr(c))); leaf.append(('task', g.task(c))); leaf.append(('sw', (g.free(), g.task(c)))); leaf.append(('mm', g.mm()))
         leaf.append(('rl', g.rl(c)))
     leaf = [('task', CORPUS_TASK), ('sw', (b'v2', CORPUS_TASK)), ('sr', CORPUS_TASK[1])] + leaf
+    # outside wf_task_str: an address containing a space shifts the tokens of the space-joined INFOMGR form (recorded, sub-check task_space_in_address)
+    leaf += [('task', (b'c', ('M', [(1, 2)], (7, b'a b', b'c', b'd', b'e')))), ('task', (b'c', ('I', [(1, 2)], (7, b'a', b'c', b'd', b'e f'))))]
     leaf += [('task', g.task(True, spaces=True)) for _ in range(5)]
     enc_cases = []
     for k, v in leaf:
